@@ -104,8 +104,10 @@ namespace rkcommon {
             std::unique_lock<std::mutex> lock(l->runningMutex);
             l->runningCond.wait(lock, [&] {
               RKCOMMON_VERIF_POINT("C:loop evaluating wait predicate");
-              return l->shouldBeRunning.load() ||
-                     !l->threadShouldBeAlive.load();
+              const bool wake = l->shouldBeRunning.load() ||
+                                !l->threadShouldBeAlive.load();
+              RKCOMMON_VERIF_POINT("H:loop wait predicate evaluated");
+              return wake;
             });
           }
         }
